@@ -31,7 +31,7 @@ TEnd == /\ IsEvent("End")
         /\ ret[Ev.c] = Ev.ret
         /\ End(Ev.c)
 
-TSilent == /\ (\E c \in Callers : StepL(c)) \/ TimerFire
+TSilent == /\ (\E c \in Callers : Step(c) /\ Lbl(c)) \/ TimerFire
            /\ UNCHANGED l
 
 TNext == TReset \/ TStart \/ TEnd \/ TSilent
